@@ -39,11 +39,15 @@ def run_one(m, tier, suite, seed):
             res["props"][pid] = dict(rc=r.returncode, wall=round(time.time() - t0, 1), sigs=sigs[:4],
                                      err=r.stderr.decode()[-300:] if r.returncode == 2 else "")
         if suite:
-            r = subprocess.run(["/venv/bin/python", "-m", "pytest", "-q", "-x", "-p", "no:cacheprovider", "tests"],
-                               cwd="/repo", env=dict(os.environ, PYTHONPATH=os.path.join(tmp, "py34")),
-                               stdout=subprocess.PIPE, stderr=subprocess.STDOUT, timeout=3600)
-            res["suite_rc"] = r.returncode
-            res["suite_tail"] = r.stdout.decode().strip().splitlines()[-1:]
+            try:
+                r = subprocess.run(["/venv/bin/python", "-m", "pytest", "-q", "-x", "-p", "no:cacheprovider", "tests"],
+                                   cwd="/repo", env=dict(os.environ, PYTHONPATH=os.path.join(tmp, "py34")),
+                                   stdout=subprocess.PIPE, stderr=subprocess.STDOUT, timeout=300)
+                res["suite_rc"] = r.returncode
+                res["suite_tail"] = r.stdout.decode().strip().splitlines()[-1:]
+            except subprocess.TimeoutExpired:
+                res["suite_rc"] = "timeout"
+                res["suite_tail"] = ["the repository suite did not finish within 300 s"]
         return res
     finally:
         shutil.rmtree(tmp, ignore_errors=True)
@@ -58,6 +62,7 @@ def main():
     ap.add_argument("--seed", type=int, default=1)
     ap.add_argument("--jobs", type=int, default=1)
     ap.add_argument("--store", action="store_true", help="merge the results into findings/mutant_results.json")
+    ap.add_argument("--resume", action="store_true", help="skip mutants that already have a stored result")
     a = ap.parse_args()
     sel = MUTANTS
     if a.only:
@@ -66,6 +71,12 @@ def main():
     if a.prop:
         sel = [m for m in sel if a.prop in m["props"]]
     caught = 0
+    if a.resume:
+        try:
+            have = json.load(open(os.path.join(VERIF, "findings", "mutant_results.json")))
+        except Exception:
+            have = {}
+        sel = [m for m in sel if m["id"] not in have or have[m["id"]].get("error")]
     for m in sel:
         r = run_one(m, a.tier, a.suite, a.seed)
         ok = r.get("props") and all(v["rc"] == 1 for v in r["props"].values())
